@@ -16,8 +16,15 @@ plain NumPy: own solves / pseudo-inverses of A[I], set arithmetic on I):
   (known defect of the pinned tree, isolated)                                 -> C08.maxvol_rect.distinct.zero_rows
 * acceptance / rejection of every (dr_min, dr_max) pair incl. None, negative, too large, on small sizes
                                                                               -> C08.maxvol_rect.limits
-* _maxvol: n <= r returns (arange(n), eye(n)); clipping of dr_max / dr_min; dispatch to maxvol / maxvol_rect
-                                                                              -> C08._maxvol.dispatch
+* _maxvol: n <= r returns (arange(n), eye(n)); clipping of dr_max / dr_min; dispatch to maxvol / maxvol_rect;
+  with distinct tau / tau0 and the iteration limit not hit the accuracy parameters must arrive in the right
+  slots (max|B| <= tau0 resp. row norms <= tau, re-derived here)                -> C08._maxvol.dispatch
+* optional arguments left out == documented defaults (maxvol e=1.05, k=100; maxvol_rect e=1.1, dr_min=0,
+  dr_max=None, e0=1.05, k0=10; _maxvol tau=1.1, 0/0, tau0=1.05, k0=100) and the identities hold -> C08.defaults
+
+Input presentation (parameters `scale`, `form`, `p2` of the clauses; every quantity of the property is invariant
+under A -> c A): overall factors 1e-12 .. 1e12 and 2^-300, 2^300 (2^+-500 exact in C08.maxvol.exact), Fortran
+order, non-contiguous views, transposed views.
 
 Matrix families (quantifier): Gaussian factors with prescribed singular values (condition number 1 ... 1e8),
 rows of unit length,
@@ -33,10 +40,12 @@ from rtc.api import clause, PASS, FAIL, TRIVIAL, SKIP, check
 from rtc import gen
 
 BUDGET = (100, 800)
-BOUNDS = ('r <= 5 (quick) / <= 10 (thorough), n - r in {1,2,3,7,20,(60)}, cond in {1,1e4,1e8} (+1e2,1e6 thorough), '
-          'families gauss / integer / 1-3 zero rows / 1-3 duplicate rows, e in {1.01,1.05,1.5,2,5}, k in {0,1,2,1e5}; '
-          'maxvol_rect: all 0 <= dr_min <= n-r (n-r <= 7), dr_max in {dr_min, dr_min+1, dr_min+3, None}, '
-          'e0 in {1.01,1.05}, k0 in {1,10,100}; limits exhaustive for n <= 6, r <= 3, dr in -1..n-r+2 and None')
+BOUNDS = ('r <= 5 (quick) / <= 10 (thorough), n - r in {1,2,3,7,20,(60)} and 40, 100, (300), cond in {1,1e4,1e8} (+1e2,1e6 '
+          'thorough), families gauss / integer / 1-3 zero rows / 1-3 duplicate rows, e in {1.01,1.05,1.5,2,5,100}, k in '
+          '{0,1,2,3,5,10,100,1e5}; maxvol_rect: all 0 <= dr_min <= n-r (n-r <= 7), dr_max in {dr_min, dr_min+1, dr_min+3, None}, '
+          'e0 in {1.01,1.05,2,5}, k0 in {1,2,10,100}; limits exhaustive for n <= 6, r <= 3, dr in -1..n-r+2 and None; overall '
+          'scale 1e-12..1e12 and 2^+-300 (2^+-500 exact), C / F / non-contiguous / transposed input; _maxvol with '
+          '(tau, tau0, k0) in {(1.1,1.05,100), (3,1.01,1e5), (1.01,2.5,1e5), (1.3,1.3,1)}; default-argument calls')
 
 EPS = np.finfo(float).eps
 KBIG = 100000
